@@ -400,7 +400,7 @@ namespace igris
         }
 
         if (end)
-            *end = (char *)buf - 1;
+            *end = (char *)buf;
 
         return res;
     }
@@ -416,7 +416,7 @@ namespace igris
         }
 
         if (end)
-            *end = (char *)buf - 1;
+            *end = (char *)buf;
 
         return res;
     }
